@@ -87,6 +87,17 @@ func c02Devs() []c02Dev {
 	add("ident", "name+names-same", func(d *ref.Doc) { d.Ifaces[0].Scalars["names"] = []string{"eth0"} })
 	add("ident", "no-name", func(d *ref.Doc) { delete(d.Ifaces[0].Scalars, "name") })
 	add("ident", "names-dup", func(d *ref.Doc) { s := d.Ifaces[0].Scalars; delete(s, "name"); s["names"] = []string{"eth0", "eth0"} })
+	add("ident", "names-3", func(d *ref.Doc) { s := d.Ifaces[0].Scalars; delete(s, "name"); s["names"] = []string{"eth0", "eth1", "eth2"} })
+	add("ident", "names-dup-nonadjacent", func(d *ref.Doc) {
+		s := d.Ifaces[0].Scalars
+		delete(s, "name")
+		s["names"] = []string{"eth0", "eth1", "eth0"}
+	})
+	add("ident", "names-dup-last", func(d *ref.Doc) {
+		s := d.Ifaces[0].Scalars
+		delete(s, "name")
+		s["names"] = []string{"eth0", "eth1", "eth2", "eth1"}
+	})
 	add("ident", "name-empty", func(d *ref.Doc) { d.Ifaces[0].Scalars["name"] = "" })
 	add("ident", "names-empty", func(d *ref.Doc) { s := d.Ifaces[0].Scalars; delete(s, "name"); s["names"] = []string{} })
 	add("ident", "name+names-empty", func(d *ref.Doc) { d.Ifaces[0].Scalars["names"] = []string{} })
@@ -104,6 +115,8 @@ func c02Devs() []c02Dev {
 	second("second-adv-eth1", ref.Table{"name": "eth1", "advertise": true, "max_interval": "4s", "min_interval": "3s"}, []ref.Table{{}})
 	second("second-neither-eth2", ref.Table{"name": "eth2"}, nil)
 	second("second-nameless", ref.Table{"advertise": true}, nil)
+	second("second-names-dup-nonadjacent", ref.Table{"names": []string{"eth1", "eth2", "eth1"}, "monitor": true}, nil)
+	second("second-names-3-overlap-last", ref.Table{"names": []string{"eth1", "eth2", "eth0"}, "advertise": true}, nil)
 	second("second-monitor-verbose-names", ref.Table{"names": []string{"eth1", "eth2"}, "monitor": true, "verbose": true}, nil)
 	add("second", "no-interfaces", func(d *ref.Doc) { d.Ifaces = nil })
 
